@@ -572,3 +572,31 @@ def family_bucket_corners(tier, seed):
             m = {"id": "1.100000001", "event_id": "30000001", "market_type": "WIN", "winners": 1, "bsp": True, "persistence": True, "runners": [11, 12], "updates": ups()}
             out.append({"id": "bc%d" % k, "cfg": {}, "markets": [m], "strategies": [{"name": "A", "max_live_trade_count": 1000, "script": script}]})
     return out
+
+
+def family_inflight_fill(tier, seed):
+    """a resting order has a cancel / update / replace in flight when volume trades at its price, before the request's
+    latency has passed: it is still in the book and is filled like any resting order (whole or part), then the response
+    meets an order that has changed"""
+    out = []
+    k = 0
+    for side in ("BACK", "LAY"):
+        for op in ("cancel", "cancel_part", "update", "replace"):
+            for vol in (4.0, 40.0):       # part / all of the order
+                for inplay in (False, True):
+                    k += 1
+                    price = 3.0
+                    def up(pt, trd):
+                        atb, atl = ([[2.8, 10.0]], [[3.4, 10.0]])
+                        return {"pt": pt, "status": "OPEN", "version": 1, "inplay": inplay, "bet_delay": 2 if inplay else 0,
+                                "rstat": {"11": ["ACTIVE", 50.0, None], "12": ["ACTIVE", 50.0, None]},
+                                "books": {"11": _bk(atb, atl, [[price, trd]]), "12": _bk([[5.0, 10.0]], [[5.5, 10.0]], [])}}
+                    t1 = 4000
+                    ups = [up(0, 0.0), up(3000, 0.0), up(t1, 0.0), up(t1 + 100, vol), up(t1 + 150, vol), up(t1 + 1000, vol), up(t1 + 4000, vol), up(t1 + 5000, vol)]
+                    a = {"cancel": {"op": "cancel", "o": "q1"}, "cancel_part": {"op": "cancel", "o": "q1", "reduction": 3.0},
+                         "update": {"op": "update", "o": "q1", "pers": "PERSIST"}, "replace": {"op": "replace", "o": "q1", "price": 3.1 if side == "BACK" else 2.9}}[op]
+                    script = {"1.100000001|0|book": [{"op": "place", "o": "q1", "t": "tq1", "sel": 11, "side": side, "price": price, "size": 10.0}],
+                              "1.100000001|%d|book" % t1: [a]}
+                    m = {"id": "1.100000001", "event_id": "30000001", "market_type": "WIN", "winners": 1, "bsp": True, "persistence": True, "runners": [11, 12], "updates": ups}
+                    out.append({"id": "if%d" % k, "cfg": {}, "markets": [m], "strategies": [{"name": "A", "max_live_trade_count": 1000, "script": script}]})
+    return out
